@@ -1,6 +1,8 @@
 """C06 -- builder simplifications never change what a pipeline means.
 proof: Props/C06.v over Gen/G_MergeOps.v (try_to_merge_ops regenerated each run)
 tie:   translator + correspondence of try_to_merge_ops (real function vs generated Gallina on random dict pairs)
+       + tree correspondence of the builders: the REAL tree returned for prefix + step (public API) vs Model/Simplify.build_step
+         (order_rows skipping with the forwarded arguments, select_columns collapsing, extend merging, "nothing to do" exits)
 oracle: chained pipeline vs. step-by-step materialisation on Pandas; accept/reject agreement of a simplified prefix
         with an unsimplified table description of the same columns"""
 import json, os, warnings
@@ -10,6 +12,7 @@ from lib import clist, cstr, cz
 warnings.filterwarnings("ignore")
 N = {"quick": (600, 250, 300), "thorough": (12000, 4000, 5000)}     # merge cases, chain scripts, accept/reject probes
 NG = {"quick": 600, "thorough": 9000}                                 # guard cases (two chained extends)
+NB = {"quick": 700, "thorough": 9000}                                 # builder tree cases (prefix in a simplifiable form + one step)
 
 
 def cpair_list(d, ids):
@@ -358,6 +361,282 @@ def accept_reject(chk, n):
                                {"kind": "impl-violation", "prefix": str(prefix), "prefix_script": pipes.to_json(s), "tables": tables,
                                 "step": {k: v for k, v in pipes.to_json(step).items() if k != "src"},
                                 "prefix_result": res[0], "bare_table_result": res[1]}, {"oracle": "accept", "ops": [step["op"]]})
+
+
+# ---------------------------------------------------------------------------------- builder tree correspondence (Model/Simplify.v)
+
+def cexpr_any(t):
+    """expression term -> Coq `expr` with no restriction on operator names (trees are compared, not evaluated)"""
+    import data_algebra.expr_rep as er
+    import semconv
+    if isinstance(t, er.ColumnReference):
+        return "(ECol %s)" % cstr(t.column_name)
+    if isinstance(t, er.Value):
+        return "(EConst %s)" % semconv.cval(t.value)
+    if isinstance(t, er.Expression):
+        args = [cexpr_any(a) for a in t.args]
+        if t.op in ("+", "*") and len(args) > 2:          # same folding as semconv.cexpr
+            acc = args[0]
+            for a in args[1:]:
+                acc = "(EOp %s %s)" % (cstr(t.op), clist([acc, a]))
+            return acc
+        return "(EOp %s %s)" % (cstr(t.op), clist(args))
+    raise semconv.Unsupported("term " + type(t).__name__)
+
+
+def sl(xs):
+    return clist([cstr(x) for x in xs])
+
+
+def cops_any(d):
+    return clist(["(%s, %s)" % (cstr(k), cexpr_any(v)) for k, v in d.items()])
+
+
+JT = {"INNER": "JInner", "LEFT": "JLeft", "RIGHT": "JRight", "FULL": "JFull", "OUTER": "JFull"}
+
+
+def cop_any(node):
+    """real operator tree -> Coq `op` (as semconv.cop, any operator name)"""
+    import semconv
+    name = node.node_name
+    if name == "TableDescription":
+        return "(OTable %s %s)" % (cstr(node.table_name), sl(node.column_names))
+    src = [cop_any(x) for x in node.sources]
+    if name == "ExtendNode":
+        part = node.partition_by if isinstance(node.partition_by, list) else []
+        return "(OExtend %s %s %s (mkwin %s %s %s))" % (src[0], cops_any(node.ops), lib.cbool(bool(node.windowed_situation)), sl(part), sl(node.order_by), sl(node.reverse))
+    if name == "ProjectNode":
+        return "(OProject %s %s %s)" % (src[0], cops_any(node.ops), sl(node.group_by))
+    if name == "SelectRowsNode":
+        return "(OSelectRows %s %s)" % (src[0], cexpr_any(node.expr))
+    if name == "SelectColumnsNode":
+        return "(OSelectCols %s %s)" % (src[0], sl(node.column_selection))
+    if name == "DropColumnsNode":
+        return "(ODropCols %s %s)" % (src[0], sl(node.column_deletions))
+    if name == "RenameColumnsNode":
+        return "(ORename %s %s)" % (src[0], clist(["(%s, %s)" % (cstr(n), cstr(o)) for n, o in node.column_remapping.items()]))
+    if name == "MapColumnsNode":
+        return "(OMapCols %s %s %s)" % (src[0], clist(["(%s, %s)" % (cstr(n), cstr(o)) for o, n in node.column_remapping.items()]), sl(node.column_deletions or []))
+    if name == "OrderRowsNode":
+        lim = "None" if node.limit is None else "(Some %d%%nat)" % node.limit
+        return "(OOrder %s %s %s %s)" % (src[0], sl(node.order_columns), sl(node.reverse), lim)
+    if name == "NaturalJoinNode":
+        if node.jointype not in JT:
+            raise semconv.Unsupported("join type " + node.jointype)
+        return "(OJoin %s %s %s %s %s)" % (src[0], src[1], sl(node.on_a), sl(node.on_b), JT[node.jointype])
+    if name == "ConcatRowsNode":
+        idc = "None" if node.id_column is None else "(Some %s)" % cstr(node.id_column)
+        return "(OConcat %s %s %s %s %s)" % (src[0], src[1], idc, cstr(node.a_name), cstr(node.b_name))
+    raise semconv.Unsupported("node " + name)
+
+
+def real_apply(prefix, st, build_sub):
+    """the step through the public API (pipes.apply_step; select_columns may hand the names over as a tuple)"""
+    import pipes
+    if st["op"] == "select_columns" and st.get("as_tuple"):
+        return prefix.select_columns(tuple(st["columns"]))
+    return pipes.apply_step(prefix, st, build_sub)
+
+
+def cstep(st, prefix, build_sub):
+    """the builder call as a Coq `step` of Model/Simplify.v: the arguments as the public method normalises them"""
+    from data_algebra.expr_parse import parse_assignments_in_context
+    op = st["op"]
+    if op == "extend":
+        parsed = parse_assignments_in_context(ops=st["ops"], view=prefix)
+        pb = st.get("partition_by") or None
+        one = (not isinstance(pb, list)) and pb == 1
+        part = list(pb) if isinstance(pb, list) else []
+        return "(SExtend %s %s %s %s %s)" % (cops_any(parsed), lib.cbool(one), sl(part), sl(st.get("order_by") or []), sl(st.get("reverse") or []))
+    if op == "project":
+        parsed = parse_assignments_in_context(ops=st["ops"], view=prefix)
+        return "(SProject %s %s)" % (cops_any(parsed), sl(st.get("group_by") or []))
+    if op == "select_rows":
+        parsed = parse_assignments_in_context(ops={"expr": st["expr"]}, view=prefix)
+        return "(SSelectRows %s)" % cexpr_any(parsed["expr"])
+    if op == "select_columns":
+        return "(SSelectCols %s %s)" % (sl(st["columns"]), lib.cbool(bool(st.get("as_tuple"))))
+    if op == "drop_columns":
+        return "(SDropCols %s)" % sl(st["columns"])
+    if op == "rename_columns":
+        return "(SRename %s)" % clist(["(%s, %s)" % (cstr(n), cstr(o)) for n, o in st["map"].items()])
+    if op == "map_columns":
+        return "(SMapCols %s)" % clist(["(%s, %s)" % (cstr(o), "None" if n is None else "(Some %s)" % cstr(n)) for o, n in st["map"].items()])
+    if op == "order_rows":
+        lim = "None" if st.get("limit") is None else "(Some %d%%nat)" % st["limit"]
+        return "(SOrder %s %s %s)" % (sl(st["columns"]), sl(st.get("reverse") or []), lim)
+    if op == "natural_join":
+        on = [tuple(x) if isinstance(x, (list, tuple)) else (x, x) for x in st["on"]]
+        return "(SJoin %s %s %s %s)" % (cop_any(build_sub(st["b"])), sl([a for a, _ in on]), sl([b for _, b in on]), JT[st["jointype"]])
+    if op == "concat_rows":
+        idc = "None" if st["id_column"] is None else "(Some %s)" % cstr(st["id_column"])
+        return "(SConcat %s %s %s %s)" % (cop_any(build_sub(st["b"])), idc, cstr(st["a_name"]), cstr(st["b_name"]))
+    raise ValueError(op)
+
+
+# prefix forms, bottom node first: order = order_rows without limit, limit = order_rows with a limit
+FORMS = ["", "order", "order", "order", "limit", "select", "drop", "extend", "wextend", "extend/order", "extend/order", "wextend/order", "wextend/order",
+         "select/order", "drop/order", "limit/order", "order/limit", "select/drop", "drop/select", "extend/extend", "project/order", "select_rows/order"]
+STEP_KINDS = ["extend", "extend", "wextend", "wextend", "project", "select_rows", "select_columns", "select_columns", "drop_columns", "rename_columns",
+              "map_columns", "order_rows", "order_rows", "natural_join", "concat_rows", "noop"]
+
+
+def force_step(g, kind, s, colty, order, tries=8):
+    keep = g.features
+    g.features = {kind}
+    try:
+        for _ in range(tries):
+            r = g.step(s, colty, order)
+            if r is not None:
+                return r
+        return None
+    finally:
+        g.features = keep
+
+
+def under_orders(s):
+    """the step the builders reach after skipping order_rows steps without limit"""
+    while s["op"] == "order_rows" and s.get("limit") is None and s["columns"]:
+        s = s["src"]
+    return s
+
+
+def gen_builder_case(rng, tables):
+    """(prefix script, step dict with "src" = prefix script, form) -- every forwarded argument takes non-default values"""
+    import pipes
+    g = pipes.Gen(rng, tables, features=["extend", "select_rows", "select_columns", "drop_columns", "rename_columns"])
+    s, colty, order = g.pipeline(rng.randint(0, 2))
+    form = rng.choice(FORMS)
+    for f in [x for x in form.split("/") if x]:
+        kind = {"order": "order_rows", "limit": "order_rows", "select": "select_columns", "drop": "drop_columns"}.get(f, f)
+        r = force_step(g, kind, s, colty, order)
+        if r is None:
+            return None
+        s, colty, order = r
+        if f == "order":
+            s["limit"] = None
+        elif f == "limit" and s["limit"] is None:
+            if not g.totalise(s["src"], order, s["columns"]):
+                return None
+            s["limit"] = rng.choice([1, 2, 3])
+    kind = rng.choice(STEP_KINDS)
+    if kind == "noop":
+        st = rng.choice([{"op": "extend", "ops": {}}, {"op": "drop_columns", "columns": []}, {"op": "rename_columns", "map": {}},
+                         {"op": "map_columns", "map": {}}, {"op": "order_rows", "columns": [], "reverse": [], "limit": None}])
+        st = dict(st, src=s)
+        return s, st, form
+    r = force_step(g, kind, s, colty, order)
+    if r is None:
+        return None
+    st = r[0]
+    top = under_orders(s)
+    nums = [c for c in pipes.cols_of(colty, "num")]
+    if st["op"] == "extend" and top["op"] == "extend" and nums and rng.random() < 0.7:
+        # towards the merge paths: the window of the extend below (equal, or a near miss), keys that overlap it, reads of what it assigned
+        pb, ob, rv = top.get("partition_by") or [], list(top.get("order_by") or []), list(top.get("reverse") or [])
+        near = rng.random()
+        if near < 0.15 and len(ob) >= 2:
+            ob = list(reversed(ob))
+        elif near < 0.25 and ob:
+            rv = [c for c in ob if c not in rv][:1] + rv
+        elif near < 0.3:
+            pb = [] if pb else 1
+        free = [c for c in nums if c not in (pb if isinstance(pb, list) else []) and c not in ob and c != "uid"] or nums
+        ops = {}
+        for _ in range(rng.randint(1, 2)):
+            k = rng.choice(list(top["ops"])) if rng.random() < 0.35 else g.newcol({**colty, **ops})
+            if k in (pb if isinstance(pb, list) else []) or k in ob:
+                continue
+            v = rng.choice(list(top["ops"])) if (rng.random() < 0.2 and all(x in colty for x in top["ops"])) else rng.choice(free)
+            if ob:
+                e = rng.choice([f"{v}.cumsum()", f"{v}.shift()", "_row_number()", f"{v}.cummax()"])
+            elif pb or pipes.script_ops(top)[-1] == "wextend" or any(("." in x and "(" in x and not x.startswith("(")) for x in top["ops"].values()):
+                e = rng.choice([f"{v}.sum()", f"{v}.max()", "_size()", f"{v}.mean()"])
+            else:
+                e = rng.choice([f"{v} + 1", f"{v} * 2", "5", f"({v}).abs()", pipes.gen_num_expr(rng, colty, 1)])
+            ops[k] = e
+        if ops:
+            st = {"op": "extend", "src": s, "ops": ops, "partition_by": pb, "order_by": ob, "reverse": rv}
+    elif st["op"] == "select_columns":
+        if rng.random() < 0.2:
+            st["columns"] = list(order)
+        if rng.random() < 0.25:
+            st["as_tuple"] = True
+    elif st["op"] == "map_columns" and rng.random() < 0.4:
+        spare = [c for c in order if c not in st["map"] and c not in st["map"].values()]
+        if len(spare) >= 2:
+            st["map"][rng.choice(spare)] = None
+    elif st["op"] == "concat_rows":
+        st["a_name"], st["b_name"] = rng.choice([("a", "b"), ("left", "right"), ("x1", "a")])
+    elif st["op"] == "natural_join":
+        if rng.random() < 0.3:
+            st["check"] = True
+        if rng.random() < 0.3:
+            st["on"] = [[c, c] for c in st["on"]]
+        if rng.random() < 0.3:
+            k = st["on"][0][0] if isinstance(st["on"][0], list) else st["on"][0]
+            st["b"] = {"op": "order_rows", "src": st["b"], "columns": [k], "reverse": [], "limit": None}
+    return s, st, form
+
+
+def builder_correspondence(chk, n):
+    """prefix (forced into every form the builders look at) + one step through the public API: the tree the REAL builder returns must be
+    Model/Simplify.build_step of the converted prefix and step, compared structurally inside Coq; a disagreement is handed to the
+    chain-vs-steps / accept oracle on the same script"""
+    import pipes, semconv
+    import data_algebra.expr_rep as er
+    rng = chk.rng
+    terms, meta = [], []
+    tries = 0
+    while len(terms) < n and tries < n * 6:
+        tries += 1
+        tables = [pipes.gen_table(rng, "d1", nrows=rng.choice([3, 4, 5, 6]), unique_col="uid"), pipes.gen_table(rng, "d2", nrows=rng.choice([2, 3, 4]), unique_col="uid")]
+        tmap = {t["name"]: t for t in tables}
+        r = gen_builder_case(rng, tables)
+        if r is None:
+            continue
+        s, st, form = r
+        memo = {}
+        try:
+            prefix = pipes.build(s, tmap, memo)
+        except Exception:
+            chk.dist("builder:prefix rejected")
+            continue
+        sub = lambda b: pipes.build(b, tmap, memo)
+        try:
+            top = real_apply(prefix, st, sub)
+        except Exception as e:
+            chk.dist("builder:step rejected:" + st["op"])
+            continue
+        try:
+            term = "(mkb IW %s %s %s %s)" % (cop_any(prefix), sl(prefix.column_names), cstep(st, prefix, sub), cop_any(top))
+        except semconv.Unsupported as e:
+            chk.dist("builder:unsupported:" + str(e)[:30])
+            continue
+        terms.append(term)
+        shape = type(prefix).__name__ + ("(limit)" if getattr(prefix, "limit", None) is not None else "") + " + " + st["op"]
+        simplified = "kept" if (len(top.sources) > 0 and top.sources[0] is prefix) else ("self" if top is prefix else "simplified")
+        meta.append({"form": form, "prefix": str(prefix), "step": {k: v for k, v in pipes.to_json(st).items() if k != "src"}, "result": str(top),
+                     "script": st, "tables": tables})
+        chk.count(("builder", str(prefix), json.dumps({k: v for k, v in pipes.to_json(st).items() if k != "src"}, sort_keys=True, default=str)), nontrivial=True)
+        chk.dist("builder:" + shape + ":" + simplified)
+        if len(terms) <= 2:
+            chk.sample({k: v for k, v in meta[-1].items() if k not in ("script", "tables")})
+    pre = ("From Coq Require Import List Bool ZArith QArith String.\nImport ListNotations.\nOpen Scope string_scope.\n"
+           "From DA Require Import Base.PyRT Base.Cases Base.Val Model.Sem Model.SemCases Model.MergeGuard Model.Simplify Model.SimplifyCases.\nOpen Scope list_scope.\n"
+           "Definition IW : list string := %s.\n" % sl(sorted(er.fn_names_that_imply_windowed_situation)))
+    failing, errors, nchecked = lib.run_case_files("C06b", pre, terms, "check_bcases", per_file=max(60, (len(terms) + 7) // 8))
+    chk.cov["correspondence_builder"] = {"what": "real builder tree for prefix + step vs Model/Simplify.build_step (structural comparison in Coq) and declared_names vs column_names",
+                                         "cases": len(terms), "checked_in_coq": nchecked, "disagreements": len(failing), "errors": errors[:2]}
+    if errors:
+        chk.corr_break("builder correspondence case files failed to compile", errors[0])
+    for i in failing[:6]:
+        m = meta[i]
+        before = len(chk.violations) + len(chk.known_hits)
+        check_script(chk, m["script"], m["tables"])          # the oracle on the disagreeing case first
+        if len(chk.violations) + len(chk.known_hits) == before:
+            chk.corr_break("Model/Simplify.build_step disagrees with the tree the real builder returned",
+                           {k: v for k, v in m.items() if k not in ("script",)} | {"script": pipes.to_json(m["script"])})
 
 
 def run(chk):
